@@ -1,1374 +1,19 @@
-import TriompheModel.Model.Monitor
-import TriompheModel.Proofs.HistInv
-import TriompheModel.Proofs.HistLen
-import TriompheModel.Proofs.HistVal
-import TriompheModel.Proofs.HistOff
-import TriompheModel.Proofs.HistCow
+import TriompheModel.Proofs.MonitorBase
+import TriompheModel.Proofs.MonitorCow
+import TriompheModel.Proofs.MonitorUnwrap
 /-!
 # Soundness of the trace monitor on the model's own observations
 
 For every check `Ki` of `Model/Monitor.lean`: on the observation `observe (run pre) op` that the model produces
 after any history `pre`, the check returns `[]`; and the monitor state stays in the simulation relation `Rel` with the
 model state.  `Props/Monitor.lean` assembles the theorem `monitor_accepts_model`.
+
+`Proofs/MonitorBase.lean`: the relation, K1 – K6.  `Proofs/MonitorCow.lean`: K7.  `Proofs/MonitorUnwrap.lean`: K8 – K10.
+This file: one op.
 -/
 namespace M1
 namespace Mon
 open LY
-
-/-! ## strings: statuses and verdicts -/
-
-theorem isPanic_panicked (cls o : String) : isPanicStatus (panicked cls o).status = true := by
-  simp [isPanicStatus, hasPrefix, panicked, String.toList_append]
-
-theorem isPanic_ok (o : String) : isPanicStatus (ok o).status = false := by
-  simp only [ok]; decide
-
-theorem isPanic_badOp : isPanicStatus badOp.status = false := by decide
-theorem isBadOp_badOp : isBadOpStatus badOp.status = true := by decide
-theorem isBadOp_ok (o : String) : isBadOpStatus (ok o).status = false := by
-  simp only [ok]; decide
-
-theorem verdict_isUnique (src : Nat) (b : Bool) :
-    verdictOf (.isUnique src) (ok s!"unique={b}") = some b := by
-  cases b <;> (simp only [verdictOf, verdictOfOut, ok]; decide)
-
-theorem verdict_getMut (s v : Nat) :
-    verdictOf (.getMut s v) (ok "some") = some true ∧ verdictOf (.getMut s v) (ok "none") = some false := by
-  simp only [verdictOf, verdictOfOut, ok]; decide
-
-theorem verdict_getUnique (s v : Nat) :
-    verdictOf (.getUnique s v) (ok "some") = some true ∧ verdictOf (.getUnique s v) (ok "none") = some false := by
-  simp only [verdictOf, verdictOfOut, ok]; decide
-
-theorem verdict_tryUnique (src : Nat) :
-    verdictOf (.tryUnique src) (ok "ok") = some true ∧ verdictOf (.tryUnique src) (ok "err") = some false := by
-  simp only [verdictOf, verdictOfOut, ok]; decide
-
-theorem verdict_tryUnwrap_ok (src : Nat) (x : String) :
-    verdictOf (.tryUnwrap src) (ok s!"ok={x}") = some true := by
-  simp [verdictOf, verdictOfOut, ok, hasPrefix, String.toList_append, toString]
-
-theorem verdict_tryUnwrap_err (src : Nat) : verdictOf (.tryUnwrap src) (ok "err") = some false := by
-  simp only [verdictOf, verdictOfOut, ok]; decide
-
-/-! ## the probe of a model state -/
-
-theorem ownersO_observe (s : State) (b : Nat) : ownersO (observeSlots s) b = owners s b := by
-  simp only [ownersO, observeSlots, owners, List.countP_map]
-  rfl
-
-theorem lookupO_observe (s : State) (i : Nat) : lookupO (observeSlots s) i = (lookup s i).map (slotObs s.mem) := by
-  simp only [lookupO, observeSlots, lookup, List.find?_map, Option.map_map]
-  rfl
-
-theorem mem_observe {s : State} {e : Nat × SlotObs} (he : e ∈ observeSlots s) :
-    ∃ h : HV, (e.1, h) ∈ s.slots ∧ e.2 = slotObs s.mem h := by
-  simp only [observeSlots, List.mem_map] at he
-  obtain ⟨⟨i, h⟩, hm, rfl⟩ := he
-  exact ⟨h, hm, rfl⟩
-
-/-! ## K1 -/
-
-theorem K1_state {s : State} (hi : Inv s) (o : Obs) (ho : o.slots = observeSlots s) : checkK1 o = [] := by
-  unfold checkK1
-  rw [List.filterMap_eq_nil_iff]
-  intro e he
-  rw [ho] at he
-  obtain ⟨h, hm, he2⟩ := mem_observe he
-  have hl : lookup s e.1 = some h := mem_lookupL hi.keys hm
-  rw [he2]
-  simp only [slotObs]
-  cases hc : obsCnt s.mem h with
-  | none => rfl
-  | some n =>
-    have hn : n = loadCount s.mem h.blk := by
-      unfold obsCnt at hc
-      split at hc <;> simp_all
-    have := (count_eq_owners hi hl).1
-    simp only [ho, ownersO_observe, hn, this, beq_self_eq_true, if_true]
-
-/-! ## K5 -/
-
-theorem blockAddrKind_true {k : Kind} (h : blockAddrKind k = true) :
-    k = .arc ∨ k = .uniq ∨ k = .thin ∨ k = .rawThin := by
-  cases k <;> simp_all [blockAddrKind]
-
-theorem blockAddrKind_false {k : Kind} (h : blockAddrKind k = false) :
-    k = .raw ∨ k = .offset ∨ k = .unionA ∨ k = .unionB := by
-  cases k <;> simp_all [blockAddrKind]
-
-theorem dataOff_pos (t : Ty) (n : Nat) : t.dataOff n ≠ 0 := by
-  rw [dataOff_values]; split <;> decide
-
-theorem K5_run (ops : List Op) (o : Obs) (ho : o.slots = observeSlots (run ops)) : checkK5 o = [] := by
-  unfold checkK5
-  rw [List.append_eq_nil_iff, List.filterMap_eq_nil_iff, List.flatMap_eq_nil_iff]
-  have hinv := inv_run ops
-  have hoff := offinv_run ops
-  refine ⟨?_, ?_⟩
-  · intro e he
-    rw [ho] at he
-    obtain ⟨h, hm, he2⟩ := mem_observe he
-    unfold k5One
-    rw [he2]
-    simp only [slotObs]
-    by_cases hk : blockAddrKind h.kind = true
-    · have := hoff.blk_addr e.1 h hm (blockAddrKind_true hk)
-      simp [this, hk]
-    · rw [Bool.not_eq_true] at hk
-      have := hoff.data_addr e.1 h hm (blockAddrKind_false hk)
-      have hne := dataOff_pos h.ty (viewLen (run ops).mem h)
-      simp [this, hne, hk]
-  · intro e he
-    rw [List.filterMap_eq_nil_iff]
-    intro e' he'
-    rw [ho] at he he'
-    obtain ⟨h, hm, he2⟩ := mem_observe he
-    obtain ⟨h', hm', he2'⟩ := mem_observe he'
-    unfold k5Pair
-    rw [he2, he2']
-    simp only [slotObs]
-    by_cases hk : blockAddrKind h.kind = true
-    · simp [hk]
-    · rw [Bool.not_eq_true] at hk
-      by_cases hk' : blockAddrKind h'.kind = true
-      · simp [hk']
-      · rw [Bool.not_eq_true] at hk'
-        by_cases hb : h.blk = h'.blk
-        · have hl : lookup (run ops) e.1 = some h := mem_lookupL hinv.keys hm
-          have hl' : lookup (run ops) e'.1 = some h' := mem_lookupL hinv.keys hm'
-          have h1 := data_kind_stores_value_address ops e.1 h hl (blockAddrKind_false hk)
-          have h2 := data_kind_stores_value_address ops e'.1 h' hl' (blockAddrKind_false hk')
-          have h3 := same_block_same_data_address ops e.1 e'.1 h h' hl hl' hb
-          have : h.off = h'.off := by rw [h1, h2, h3]
-          simp [this]
-        · simp [hb]
-
-/-! ## how the log and the `leaked` flags evolve along a step (new facts about `step`) -/
-
-/-- from `m0` to `m`: the log only grows, blocks are only appended, and no block has become `leaked` -/
-structure Grow (m0 m : Mem) : Prop where
-  log : ∃ es, m.log = m0.log ++ es
-  len : m0.blocks.length ≤ m.blocks.length
-  noleak : ∀ (b : Nat) (k : Block), m.blocks[b]? = some k → k.leaked = true →
-    ∃ k0 : Block, m0.blocks[b]? = some k0 ∧ k0.leaked = true
-
-namespace Grow
-
-theorem refl (m : Mem) : Grow m m := ⟨⟨[], by simp⟩, Nat.le_refl _, fun _ k hk hl => ⟨k, hk, hl⟩⟩
-
-theorem upd {m0 m : Mem} (hg : Grow m0 m) (b : Nat) (f : Block → Block) (hf : ∀ k, (f k).leaked = k.leaked) :
-    Grow m0 (m.upd b f) := by
-  refine ⟨hg.log, by rw [length_upd]; exact hg.len, ?_⟩
-  intro j k' hk' hl
-  rw [upd_get] at hk'
-  cases hk : m.blocks[j]? with
-  | none => rw [hk] at hk'; cases hk'
-  | some k =>
-    rw [hk] at hk'
-    simp only [Option.map_some, Option.some.injEq] at hk'
-    by_cases hbj : b = j
-    · simp only [hbj, if_true] at hk'
-      subst hk'
-      rw [hf] at hl
-      exact hg.noleak j k hk hl
-    · simp only [hbj, if_false] at hk'
-      subst hk'
-      exact hg.noleak j k hk hl
-
-theorem emit {m0 m : Mem} (hg : Grow m0 m) (es : List Event) : Grow m0 (m.emit es) := by
-  obtain ⟨es0, h0⟩ := hg.log
-  exact ⟨⟨es0 ++ es, by simp [Mem.emit, h0]⟩, hg.len, hg.noleak⟩
-
-theorem alloc {m0 m : Mem} (hg : Grow m0 m) (lay : Layout) (hdr : Option Item) (rl : Option Nat)
-    (el : List (Option Item)) : Grow m0 (allocBlock m lay hdr rl el).1 := by
-  obtain ⟨es0, h0⟩ := hg.log
-  refine ⟨⟨es0 ++ [Event.alloc m.blocks.length lay.size lay.align], by simp [allocBlock, h0]⟩,
-    by rw [length_allocBlock]; have := hg.len; omega, ?_⟩
-  intro j k hk hl
-  have hb : (allocBlock m lay hdr rl el).1.blocks = m.blocks ++ [⟨1, true, lay, hdr, rl, el, false⟩] := rfl
-  rw [hb] at hk
-  rcases append_get _ _ _ _ hk with h | h
-  · exact hg.noleak j k h hl
-  · rw [h.2] at hl; cases hl
-
-theorem incr {m0 m : Mem} (hg : Grow m0 m) (b : Nat) : Grow m0 (incr m b) := hg.upd b _ (fun _ => rfl)
-
-theorem decr {m0 m : Mem} (hg : Grow m0 m) (b : Nat) (t : Ty) (l : Nat) : Grow m0 (decr m b t l) := by
-  unfold M1.decr
-  split
-  · exact hg
-  · split
-    · exact (hg.upd b (fun k => { k with count := 0, live := false }) (fun _ => rfl)).emit _
-    · exact hg.upd b _ (fun _ => rfl)
-
-theorem writeVal {m0 m : Mem} (hg : Grow m0 m) (b v : Nat) : Grow m0 (writeVal m b v) := by
-  apply hg.upd
-  intro k
-  split
-  · rfl
-  · split <;> rfl
-
-theorem cloneValue {m0 m : Mem} (hg : Grow m0 m) (b : Nat) : Grow m0 (cloneValue m b).1 := by
-  unfold M1.cloneValue
-  split
-  · rename_i it _
-    have := hg.emit [Event.clone it.id m.nextClone]
-    exact ⟨this.log, this.len, this.noleak⟩
-  · exact hg
-
-theorem into_inner {m0 m : Mem} (hg : Grow m0 m) (u : HV) : Grow m0 (UniqueArc.into_inner m u).1 := by
-  unfold UniqueArc.into_inner
-  split
-  · exact hg
-  · exact (hg.upd u.blk (fun k => { k with count := 0, live := false }) (fun _ => rfl)).emit _
-
-theorem append_block {m0 m : Mem} (hg : Grow m0 m) (k0 : Block) (hk0 : k0.leaked = false) (es : List Event) (nc : Nat) :
-    Grow m0 ⟨m.blocks ++ [k0], m.log ++ es, nc⟩ := by
-  obtain ⟨es0, h0⟩ := hg.log
-  refine ⟨⟨es0 ++ es, by simp [h0]⟩, by simp only [List.length_append, List.length_singleton]; have := hg.len; omega, ?_⟩
-  intro j k hk hl
-  rcases append_get _ _ _ _ hk with h | h
-  · exact hg.noleak j k h hl
-  · rw [h.2, hk0] at hl; cases hl
-
-theorem same_blocks {m0 m : Mem} (hg : Grow m0 m) (es : List Event) (nc : Nat) :
-    Grow m0 ⟨m.blocks, m.log ++ es, nc⟩ := by
-  obtain ⟨es0, h0⟩ := hg.log
-  exact ⟨⟨es0 ++ es, by simp [h0]⟩, hg.len, hg.noleak⟩
-
-theorem closed (m0 : Mem) : MemClosed (Grow m0) where
-  hIncr := fun _ b _ hp _ _ => hp.incr b
-  hDecr := fun _ b t l hp _ => hp.decr b t l
-  hWriteVal := fun _ b v hp => hp.writeVal b v
-  hCloneValue := fun _ b hp => hp.cloneValue b
-  hCloneNew := fun _ b _ hp => (hp.cloneValue b).alloc ..
-  hIntoInner := fun _ u hp => hp.into_inner u
-
-end Grow
-
-/-- what one op does to the log and to the `leaked` flags: the log grows by a suffix, blocks are only appended, and a
-block is `leaked` afterwards only if it was before, or if it was allocated by this very op and the op's status is a
-panic -/
-structure StepGrow (s : State) (op : Op) : Prop where
-  log : ∃ es, (step s op).1.mem.log = s.mem.log ++ es
-  len : s.mem.blocks.length ≤ (step s op).1.mem.blocks.length
-  leak : ∀ (b : Nat) (k : Block), (step s op).1.mem.blocks[b]? = some k → k.leaked = true →
-    (∃ k0 : Block, s.mem.blocks[b]? = some k0 ∧ k0.leaked = true) ∨
-    (s.mem.blocks.length ≤ b ∧ isPanicStatus (step s op).2.status = true)
-
-theorem StepGrow.of_grow {s : State} {op : Op} (h : Grow s.mem (step s op).1.mem) : StepGrow s op :=
-  ⟨h.log, h.len, fun b k hk hl => Or.inl (h.noleak b k hk hl)⟩
-
-theorem step_grow {s : State} (hi : Inv' s) (op : Op) : StepGrow s op := by
-  cases hp : op.plain with
-  | true => exact .of_grow (closed_step (Grow.closed s.mem) hi (Grow.refl _) op hp)
-  | false =>
-    cases op with
-    | create dst c =>
-      apply StepGrow.of_grow
-      simp only [step]
-      split
-      · exact Grow.refl _
-      · split
-        · exact Grow.refl _
-        · rename_i m h hc
-          rw [runCtor_eq, Option.map_eq_some_iff] at hc
-          obtain ⟨lay, _, he⟩ := hc
-          cases he
-          exact (Grow.refl s.mem).alloc lay _ _ _
-    | writeSlot src i v =>
-      apply StepGrow.of_grow
-      simp only [step]
-      split
-      · split
-        · split
-          · simp only
-            split
-            · exact (Grow.refl _).emit _
-            · exact Grow.refl _
-          · exact (Grow.refl _).upd _ _ (fun _ => rfl)
-        · exact Grow.refl _
-      · exact Grow.refl _
-    | iterCtor dst w h sc =>
-      cases hd : lookup s dst with
-      | some x =>
-        have e : step s (.iterCtor dst w h sc) = (s, badOp) := by simp [step, hd]
-        exact .of_grow (by rw [e]; exact Grow.refl _)
-      | none =>
-        have hs := runIterCtor_spec s.mem true w h sc
-        have eb : ∀ m hv, runIterCtor s.mem true w h sc = .built m hv →
-            step s (.iterCtor dst w h sc) = (s.put m dst hv, ok) := by
-          intro m hv hr; simp [step, hd, hr]
-        have ep : ∀ m cls, runIterCtor s.mem true w h sc = .panicked m cls →
-            step s (.iterCtor dst w h sc) = (⟨m, s.slots⟩, panicked cls) := by
-          intro m cls hr; simp [step, hd, hr]
-        generalize hr : runIterCtor s.mem true w h sc = r at hs
-        cases hs with
-        | built lay hal =>
-          have e := eb _ _ hr
-          apply StepGrow.of_grow; rw [e]
-          exact (Grow.refl s.mem).append_block _ rfl _ _
-        | noBlock k cls =>
-          have e := ep _ _ hr
-          apply StepGrow.of_grow; rw [e]
-          exact (Grow.refl s.mem).same_blocks _ _
-        | noAlloc n hal =>
-          have e := ep _ _ hr
-          apply StepGrow.of_grow; rw [e]
-          exact (Grow.refl s.mem).same_blocks _ _
-        | thinMismatch lay n1 hw hn hal =>
-          have e := ep _ _ hr
-          apply StepGrow.of_grow; rw [e]
-          have := (Grow.refl s.mem).append_block ⟨0, false, lay, h, some n1, sc.items.map some, false⟩ rfl
-            ([Event.alloc s.mem.blocks.length lay.size lay.align] ++
-              (hdrDrops h ++ dropsOf sc.items ++
-                [.dealloc s.mem.blocks.length (Ty.hwl.releaseLayout sc.items.length).size
-                  (Ty.hwl.releaseLayout sc.items.length).align])) s.mem.nextClone
-          simpa using this
-        | leaked lay rl es k cls hes =>
-          have e := ep _ _ hr
-          refine ⟨?_, ?_, ?_⟩
-          · rw [e]; exact ⟨_, List.append_assoc _ _ _⟩
-          · rw [e]; simp
-          · intro b k' hk' hl
-            rw [e] at hk' ⊢
-            simp only at hk'
-            rcases append_get _ _ _ _ hk' with h1 | h1
-            · exact Or.inl ⟨k', h1, hl⟩
-            · exact Or.inr ⟨by omega, isPanic_panicked _ _⟩
-    | _ => cases hp
-
-/-! ## K2: the event fold against a disciplined log -/
-
-/-- what the monitor knows after the events `pre` of the whole log -/
-structure Track (pre : List Event) (st : MSt) : Prop where
-  live : ∀ b sz al, (b, sz, al) ∈ st.live ↔
-    (Event.alloc b sz al ∈ pre ∧ ∀ sz' al', Event.dealloc b sz' al' ∉ pre)
-  dropped : ∀ id, id ∈ st.dropped ↔ Event.drop id ∈ pre
-
-/-- the discipline of a complete log `L` (and of the probe `o.slots` taken at its end) that K2 checks -/
-structure LogOk (o : Obs) (L : List Event) : Prop where
-  allocFresh : ∀ pre rest b sz al, L = pre ++ Event.alloc b sz al :: rest →
-    ∀ sz' al', Event.dealloc b sz' al' ∉ pre
-  deallocLive : ∀ pre rest b sz al, L = pre ++ Event.dealloc b sz al :: rest →
-    (∃ sz' al', Event.alloc b sz' al' ∈ pre) ∧ (∀ sz' al', Event.dealloc b sz' al' ∉ pre)
-  layout : ∀ b sz al sz' al', Event.alloc b sz al ∈ L → Event.dealloc b sz' al' ∈ L → sz' = sz ∧ al' = al
-  unowned : ∀ b sz al, Event.dealloc b sz al ∈ L → ownersO o.slots b = 0
-  dropOnce : ∀ pre rest id, L = pre ++ Event.drop id :: rest → Event.drop id ∉ pre
-
-theorem mem_snoc {x e : Event} {pre : List Event} : x ∈ pre ++ [e] ↔ x ∈ pre ∨ x = e := by simp
-
-/-- an event that is neither `alloc`, `dealloc` nor `drop` changes nothing -/
-theorem track_other {pre : List Event} {e : Event} {st : MSt} (ht : Track pre st)
-    (h1 : ∀ b sz al, e ≠ Event.alloc b sz al) (h2 : ∀ b sz al, e ≠ Event.dealloc b sz al)
-    (h3 : ∀ id, e ≠ Event.drop id) : Track (pre ++ [e]) st := by
-  refine ⟨?_, ?_⟩
-  · intro b sz al
-    rw [ht.live, mem_snoc]
-    constructor
-    · rintro ⟨ha, hd⟩
-      exact ⟨Or.inl ha, fun s a hm => by
-        rcases mem_snoc.1 hm with hm | hm
-        · exact hd s a hm
-        · exact h2 _ _ _ hm.symm⟩
-    · rintro ⟨ha | ha, hd⟩
-      · exact ⟨ha, fun s a hm => hd s a (mem_snoc.2 (Or.inl hm))⟩
-      · exact absurd ha.symm (h1 _ _ _)
-  · intro id
-    rw [ht.dropped, mem_snoc]
-    constructor
-    · exact Or.inl
-    · rintro (h | h)
-      · exact h
-      · exact absurd h.symm (h3 _)
-
-theorem k2Step_sound {o : Obs} {L : List Event} (hL : LogOk o L) {pre rest : List Event} {e : Event} {st : MSt}
-    (hsplit : L = pre ++ e :: rest) (ht : Track pre st) :
-    (k2Step o st e).2 = [] ∧ Track (pre ++ [e]) (k2Step o st e).1 := by
-  cases e with
-  | alloc b sz al =>
-    refine ⟨rfl, ?_, ?_⟩
-    · intro b' sz' al'
-      show (b', sz', al') ∈ (b, sz, al) :: st.live ↔ _
-      rw [List.mem_cons, ht.live, mem_snoc]
-      constructor
-      · rintro (h | ⟨h1, h2⟩)
-        · cases h
-          exact ⟨Or.inr rfl, fun s a hm => by
-            rcases mem_snoc.1 hm with hm | hm
-            · exact hL.allocFresh pre rest _ _ _ hsplit s a hm
-            · cases hm⟩
-        · exact ⟨Or.inl h1, fun s a hm => by
-            rcases mem_snoc.1 hm with hm | hm
-            · exact h2 s a hm
-            · cases hm⟩
-      · rintro ⟨h1 | h1, h2⟩
-        · exact Or.inr ⟨h1, fun s a hm => h2 s a (mem_snoc.2 (Or.inl hm))⟩
-        · cases h1; exact Or.inl rfl
-    · intro id
-      show id ∈ st.dropped ↔ _
-      rw [ht.dropped, mem_snoc]
-      constructor
-      · exact Or.inl
-      · rintro (h | h)
-        · exact h
-        · cases h
-  | dealloc b sz al =>
-    obtain ⟨⟨sz0, al0, ha0⟩, hnd⟩ := hL.deallocLive pre rest b sz al hsplit
-    have hlive0 : (b, sz0, al0) ∈ st.live := (ht.live b sz0 al0).2 ⟨ha0, hnd⟩
-    have hdL : Event.dealloc b sz al ∈ L := by rw [hsplit]; simp
-    refine ⟨?_, ?_, ?_⟩
-    · show (match st.live.find? (fun e => e.1 == b) with
-        | none => [Fail.freeNotLive "C01" b]
-        | some e => if e.2.1 == sz && e.2.2 == al then [] else [Fail.freeLayout "C05" b e.2.1 e.2.2 sz al]) ++
-       (if ownersO o.slots b == 0 then [] else [Fail.freeOwned "C01" b (ownersO o.slots b)]) = []
-      rw [List.append_eq_nil_iff]
-      refine ⟨?_, ?_⟩
-      · cases hf : st.live.find? (fun e => e.1 == b) with
-        | none =>
-          rw [List.find?_eq_none] at hf
-          have := hf _ hlive0
-          simp at this
-        | some e =>
-          have hm := List.mem_of_find?_eq_some hf
-          have hb := List.find?_some hf
-          simp only [beq_iff_eq] at hb
-          obtain ⟨b1, s1, a1⟩ := e
-          simp only at hb
-          subst hb
-          have ha1 := ((ht.live b1 s1 a1).1 hm).1
-          have haL : Event.alloc b1 s1 a1 ∈ L := by rw [hsplit]; exact List.mem_append_left _ ha1
-          obtain ⟨rfl, rfl⟩ := hL.layout _ _ _ _ _ haL hdL
-          simp
-      · rw [hL.unowned b sz al hdL]; rfl
-    · intro b' sz' al'
-      show (b', sz', al') ∈ st.live.filter (fun e => e.1 != b) ↔ _
-      rw [List.mem_filter, ht.live, mem_snoc]
-      constructor
-      · rintro ⟨⟨h1, h2⟩, h3⟩
-        refine ⟨Or.inl h1, fun s a hm => ?_⟩
-        rcases mem_snoc.1 hm with hm | hm
-        · exact h2 s a hm
-        · cases hm; simp at h3
-      · rintro ⟨h1 | h1, h2⟩
-        · refine ⟨⟨h1, fun s a hm => h2 s a (mem_snoc.2 (Or.inl hm))⟩, ?_⟩
-          simp only [bne_iff_ne, ne_eq]
-          intro hb
-          subst hb
-          exact h2 sz al (mem_snoc.2 (Or.inr rfl))
-        · cases h1
-    · intro id
-      show id ∈ st.dropped ↔ _
-      rw [ht.dropped, mem_snoc]
-      constructor
-      · exact Or.inl
-      · rintro (h | h)
-        · exact h
-        · cases h
-  | drop id =>
-    have hnot : id ∉ st.dropped := fun h => hL.dropOnce pre rest id hsplit ((ht.dropped id).1 h)
-    refine ⟨?_, ?_, ?_⟩
-    · show (if st.dropped.contains id then [Fail.doubleDrop "C01" id] else []) = []
-      simp [hnot]
-    · intro b' sz' al'
-      show (b', sz', al') ∈ st.live ↔ _
-      rw [ht.live, mem_snoc]
-      constructor
-      · rintro ⟨ha, hd⟩
-        exact ⟨Or.inl ha, fun s a hm => by
-          rcases mem_snoc.1 hm with hm | hm
-          · exact hd s a hm
-          · cases hm⟩
-      · rintro ⟨ha | ha, hd⟩
-        · exact ⟨ha, fun s a hm => hd s a (mem_snoc.2 (Or.inl hm))⟩
-        · cases ha
-    · intro id'
-      show id' ∈ id :: st.dropped ↔ _
-      rw [List.mem_cons, ht.dropped, mem_snoc]
-      constructor
-      · rintro (h | h)
-        · subst h; exact Or.inr rfl
-        · exact Or.inl h
-      · rintro (h | h)
-        · exact Or.inr h
-        · cases h; exact Or.inl rfl
-  | clone a c =>
-    exact ⟨rfl, track_other ht (fun _ _ _ h => by cases h) (fun _ _ _ h => by cases h) (fun _ h => by cases h)⟩
-  | dropUninit a c =>
-    exact ⟨rfl, track_other ht (fun _ _ _ h => by cases h) (fun _ _ _ h => by cases h) (fun _ h => by cases h)⟩
-
-theorem k2_sound {o : Obs} {L : List Event} (hL : LogOk o L) :
-    ∀ (evs pre : List Event) (st : MSt), L = pre ++ evs → Track pre st →
-      (k2 o st evs).2 = [] ∧ Track L (k2 o st evs).1 := by
-  intro evs
-  induction evs with
-  | nil => intro pre st hsplit ht; simp only [List.append_nil] at hsplit; subst hsplit; exact ⟨rfl, ht⟩
-  | cons e r ih =>
-    intro pre st hsplit ht
-    obtain ⟨h1, h2⟩ := k2Step_sound hL hsplit ht
-    obtain ⟨h3, h4⟩ := ih (pre ++ [e]) (k2Step o st e).1 (by rw [hsplit]; simp) h2
-    refine ⟨?_, h4⟩
-    simp only [k2, h1, h3, List.append_nil]
-
-/-- K2 never forgets a documented leak, and records the blocks allocated by a panicking op -/
-theorem k2_leakOk_mono (o : Obs) : ∀ (evs : List Event) (st : MSt) (b : Nat),
-    b ∈ st.leakOk → b ∈ (k2 o st evs).1.leakOk := by
-  intro evs
-  induction evs with
-  | nil => intro st b h; exact h
-  | cons e r ih =>
-    intro st b h
-    simp only [k2]
-    apply ih
-    cases e <;> simp only [k2Step] <;> try exact h
-    split
-    · exact List.mem_cons_of_mem _ h
-    · exact h
-
-theorem k2_leakOk_new (o : Obs) (hp : o.panicked = true) : ∀ (evs : List Event) (st : MSt) (b sz al : Nat),
-    Event.alloc b sz al ∈ evs → b ∈ (k2 o st evs).1.leakOk := by
-  intro evs
-  induction evs with
-  | nil => intro st b sz al h; cases h
-  | cons e r ih =>
-    intro st b sz al h
-    simp only [k2]
-    rcases List.mem_cons.1 h with h | h
-    · subst h
-      apply k2_leakOk_mono
-      simp [k2Step, hp]
-    · exact ih _ b sz al h
-
-theorem k2_pre (o : Obs) : ∀ (evs : List Event) (st : MSt), (k2 o st evs).1.pre = st.pre := by
-  intro evs
-  induction evs with
-  | nil => intro st; rfl
-  | cons e r ih =>
-    intro st
-    simp only [k2]
-    rw [ih]
-    cases e <;> rfl
-
-/-! ## the log of a reachable state is disciplined; so is the log with the events of the last op permuted -/
-
-/-- facts about a log that do not depend on the order of its events -/
-structure LogFacts (o : Obs) (L : List Event) : Prop where
-  allocOnce : ∀ b, L.countP (isAlloc b) ≤ 1
-  deallocOnce : ∀ b, L.countP (isDealloc b) ≤ 1
-  allocated : ∀ b sz al, Event.dealloc b sz al ∈ L → ∃ sz' al', Event.alloc b sz' al' ∈ L
-  layout : ∀ b sz al sz' al', Event.alloc b sz al ∈ L → Event.dealloc b sz' al' ∈ L → sz' = sz ∧ al' = al
-  unowned : ∀ b sz al, Event.dealloc b sz al ∈ L → ownersO o.slots b = 0
-  drops : (dropIds L).Nodup
-
-/-- every `dealloc` is preceded by an `alloc` of the same block -/
-def Ordered (L : List Event) : Prop :=
-  ∀ pre rest b sz al, L = pre ++ Event.dealloc b sz al :: rest → ∃ sz' al', Event.alloc b sz' al' ∈ pre
-
-theorem two_of_split {p : Event → Bool} {pre rest : List Event} {x y : Event} (hx : x ∈ pre) (hpx : p x = true)
-    (hpy : p y = true) : 2 ≤ (pre ++ y :: rest).countP p := by
-  rw [List.countP_append, List.countP_cons, if_pos hpy]
-  have : 0 < pre.countP p := List.countP_pos_iff.2 ⟨x, hx, hpx⟩
-  omega
-
-theorem logOk_of_facts {o : Obs} {L : List Event} (hf : LogFacts o L) (ho : Ordered L) : LogOk o L where
-  allocFresh := by
-    intro pre rest b sz al hsplit sz' al' hm
-    obtain ⟨p1, p2, rfl⟩ := List.append_of_mem hm
-    obtain ⟨s0, a0, h0⟩ := ho p1 (p2 ++ Event.alloc b sz al :: rest) b sz' al' (by rw [hsplit]; simp)
-    have := two_of_split (p := isAlloc b) (pre := p1 ++ Event.dealloc b sz' al' :: p2) (rest := rest)
-      (x := Event.alloc b s0 a0) (y := Event.alloc b sz al) (List.mem_append_left _ h0) (by simp [isAlloc])
-      (by simp [isAlloc])
-    rw [← hsplit] at this
-    have := hf.allocOnce b
-    omega
-  deallocLive := by
-    intro pre rest b sz al hsplit
-    refine ⟨ho pre rest b sz al hsplit, ?_⟩
-    intro sz' al' hm
-    have := two_of_split (p := isDealloc b) (rest := rest) (y := Event.dealloc b sz al) hm (by simp [isDealloc])
-      (by simp [isDealloc])
-    rw [← hsplit] at this
-    have := hf.deallocOnce b
-    omega
-  layout := hf.layout
-  unowned := hf.unowned
-  dropOnce := by
-    intro pre rest id hsplit hm
-    have hnd := hf.drops
-    rw [hsplit, dropIds_append] at hnd
-    have h1 : id ∈ dropIds pre := by
-      simp only [dropIds, List.mem_filterMap]
-      exact ⟨_, hm, rfl⟩
-    have h2 : id ∈ dropIds (Event.drop id :: rest) := by
-      rw [dropIds_cons_drop]; exact List.mem_cons_self
-    exact (List.nodup_append.1 hnd).2.2 id h1 id h2 rfl
-
-theorem LogFacts.perm {o : Obs} {L L' : List Event} (hp : L.Perm L') (hf : LogFacts o L) : LogFacts o L' where
-  allocOnce := fun b => by rw [← hp.countP_eq]; exact hf.allocOnce b
-  deallocOnce := fun b => by rw [← hp.countP_eq]; exact hf.deallocOnce b
-  allocated := fun b sz al h => by
-    obtain ⟨s, a, h'⟩ := hf.allocated b sz al (hp.mem_iff.2 h)
-    exact ⟨s, a, hp.mem_iff.1 h'⟩
-  layout := fun b sz al sz' al' h1 h2 => hf.layout b sz al sz' al' (hp.mem_iff.2 h1) (hp.mem_iff.2 h2)
-  unowned := fun b sz al h => hf.unowned b sz al (hp.mem_iff.2 h)
-  drops := ((hp.filterMap Event.dropId?).nodup_iff).1 hf.drops
-
-theorem getElem?_of_mem_left {x : Event} {pre rest : List Event} (h : x ∈ pre) :
-    ∃ i, i < pre.length ∧ (pre ++ rest)[i]? = some x := by
-  obtain ⟨i, hi⟩ := List.mem_iff_getElem?.1 h
-  have hlt : i < pre.length := (List.getElem?_eq_some_iff.1 hi).1
-  exact ⟨i, hlt, by rw [List.getElem?_append_left hlt]; exact hi⟩
-
-theorem getElem?_mid (pre rest : List Event) (e : Event) : (pre ++ e :: rest)[pre.length]? = some e := by
-  rw [List.getElem?_append_right (Nat.le_refl _)]; simp
-
-theorem ordered_of_loginv {m : Mem} (hl : LogInv m) : Ordered m.log := by
-  intro pre rest b sz al hsplit
-  have hmid := getElem?_mid pre rest (Event.dealloc b sz al)
-  rw [← hsplit] at hmid
-  obtain ⟨j, hj, sz', al', hget⟩ := hl.ord _ b sz al hmid
-  rw [hsplit, List.getElem?_append_left hj] at hget
-  exact ⟨sz', al', List.mem_of_getElem? hget⟩
-
-theorem facts_of_state {s : State} (hi : Inv s) (hl : LogInv s.mem) (hdl : DL s.mem)
-    (hnd : (dropIds s.mem.log).Nodup) (o : Obs) (ho : o.slots = observeSlots s) : LogFacts o s.mem.log where
-  allocOnce := fun b => by have := hl.na b; split at this <;> omega
-  deallocOnce := fun b => dealloc_le_one hl b
-  allocated := by
-    intro b sz al hd
-    obtain ⟨i, hi⟩ := List.mem_iff_getElem?.1 hd
-    obtain ⟨j, _, sz', al', hj⟩ := hl.ord i b sz al hi
-    exact ⟨sz', al', List.mem_of_getElem? hj⟩
-  layout := by
-    intro b sz al sz' al' ha hd
-    obtain ⟨k, hk, hlay⟩ := hl.lay b sz al ha
-    obtain ⟨k', hk', hlay'⟩ := hdl b sz' al' hd
-    rw [hk] at hk'; cases hk'
-    rw [hlay] at hlay'
-    simp only [Layout.mk.injEq] at hlay'
-    exact ⟨hlay'.1.symm, hlay'.2.symm⟩
-  unowned := by
-    intro b sz al hd
-    have hb := dealloc_inb hl hd
-    obtain ⟨k, hk⟩ : ∃ k, s.mem.blocks[b]? = some k := ⟨_, List.getElem?_eq_getElem hb⟩
-    have hdead := (dealloc_iff_dead hl hk).1 ⟨sz, al, hd⟩
-    rw [ho, ownersO_observe]
-    exact hi.dead b k hk hdead
-  drops := hnd
-
-/-- a split of `A ++ N` at an element that is not in `A` lies beyond `A` -/
-theorem prefix_of_split {α : Type} : ∀ (A N p : List α) (x : α) (r : List α),
-    A ++ N = p ++ x :: r → x ∉ A → ∃ q, p = A ++ q := by
-  intro A
-  induction A with
-  | nil => intro N p x r _ _; exact ⟨p, rfl⟩
-  | cons a A' ih =>
-    intro N p x r h hx
-    cases p with
-    | nil =>
-      simp only [List.cons_append, List.nil_append, List.cons.injEq] at h
-      exact absurd (h.1 ▸ List.mem_cons_self) hx
-    | cons a' p' =>
-      simp only [List.cons_append, List.cons.injEq] at h
-      obtain ⟨q, hq⟩ := ih N p' x r h.2 (fun hm => hx (List.mem_cons_of_mem _ hm))
-      exact ⟨q, by rw [h.1, hq]; rfl⟩
-
-theorem canonEvs_perm (evs : List Event) : (canonEvs evs).Perm evs := List.filter_append_perm _ _
-
-/-- with the allocations of the last op first, every `dealloc` still comes after the `alloc` of its block -/
-theorem ordered_canon {o : Obs} {log evs : List Event} (hord : Ordered log)
-    (hf : LogFacts o (log ++ canonEvs evs)) : Ordered (log ++ canonEvs evs) := by
-  -- a split inside the canonical part
-  have hcanon : ∀ (a' rest : List Event) (b sz al : Nat), canonEvs evs = a' ++ Event.dealloc b sz al :: rest →
-      ∃ sz' al', Event.alloc b sz' al' ∈ log ++ a' := by
-    intro a' rest b sz al hc
-    obtain ⟨s0, a0, hm⟩ := hf.allocated b sz al (by rw [hc]; simp)
-    rcases List.mem_append.1 hm with hm | hm
-    · exact ⟨s0, a0, List.mem_append_left _ hm⟩
-    · have hc' := hc
-      unfold canonEvs at hc' hm
-      rcases List.mem_append.1 hm with hm | hm
-      · obtain ⟨q, hq⟩ := prefix_of_split _ _ _ _ _ hc' (by simp [isAllocEv])
-        exact ⟨s0, a0, List.mem_append_right _ (by rw [hq]; exact List.mem_append_left _ hm)⟩
-      · simp [isAllocEv] at hm
-  intro pre rest b sz al hsplit
-  rcases List.append_eq_append_iff.1 hsplit with ⟨a', hpre, hc⟩ | ⟨c', hlog, hc⟩
-  · obtain ⟨s0, a0, hm⟩ := hcanon a' rest b sz al hc
-    exact ⟨s0, a0, by rw [hpre]; exact hm⟩
-  · cases c' with
-    | nil =>
-      simp only [List.nil_append] at hc
-      simp only [List.append_nil] at hlog
-      obtain ⟨s0, a0, hm⟩ := hcanon [] rest b sz al hc.symm
-      exact ⟨s0, a0, by rw [← hlog]; simpa using hm⟩
-    | cons x c'' =>
-      simp only [List.cons_append, List.cons.injEq] at hc
-      rw [← hc.1] at hlog
-      exact hord pre c'' b sz al hlog
-
-theorem Track.congr {L L' : List Event} {st : MSt} (ht : Track L st) (h : ∀ x, x ∈ L ↔ x ∈ L') : Track L' st where
-  live := fun b sz al => by
-    rw [ht.live, h]
-    constructor
-    · rintro ⟨h1, h2⟩; exact ⟨h1, fun s a hm => h2 s a ((h _).2 hm)⟩
-    · rintro ⟨h1, h2⟩; exact ⟨h1, fun s a hm => h2 s a ((h _).1 hm)⟩
-  dropped := fun id => by rw [ht.dropped, h]
-
-/-! ## the simulation relation, and the op-independent checks K1 K2 K3 K5 -/
-
-/-- the monitor state `st` describes the model state `s` -/
-structure Rel (st : MSt) (s : State) : Prop where
-  pre : st.pre = observeSlots s
-  track : Track s.mem.log st
-  leak : ∀ (b : Nat) (k : Block), s.mem.blocks[b]? = some k → k.leaked = true → b ∈ st.leakOk
-
-theorem rel_init : Rel MSt.init State.init where
-  pre := rfl
-  track := ⟨fun b sz al => by simp [MSt.init, State.init], fun id => by simp [MSt.init, State.init]⟩
-  leak := fun b k hk => by simp [State.init] at hk
-
-theorem observe_evs {s : State} {op : Op} {es : List Event} (h : (step s op).1.mem.log = s.mem.log ++ es) :
-    (observe s op).evs = es := by
-  simp [observe, h]
-
-/-- the op-independent checks pass on the model's observation, with the events of the op in ANY order -/
-theorem checkObsOnly_sound {s : State} {op : Op} {st : MSt} (hr : Rel st s)
-    (hl : LogInv s.mem) (hg : StepGrow s op)
-    (hi' : Inv (step s op).1) (hl' : LogInv (step s op).1.mem) (hdl' : DL (step s op).1.mem)
-    (hnd' : (dropIds (step s op).1.mem.log).Nodup) (hk5 : checkK5 (observe s op) = [])
-    (evs' : List Event) (hperm : evs'.Perm (observe s op).evs) :
-    (checkObsOnly st ((observe s op).withEvs evs')).2 = [] ∧
-    Rel (checkObsOnly st ((observe s op).withEvs evs')).1 (step s op).1 := by
-  obtain ⟨es, hes⟩ := hg.log
-  have hevs := observe_evs hes
-  rw [hevs] at hperm
-  generalize ho : (observe s op).withEvs evs' = o
-  have hoevs : o.evs = evs' := by rw [← ho]; rfl
-  have hslots : o.slots = observeSlots (step s op).1 := by rw [← ho]; rfl
-  have hpan : o.panicked = (observe s op).panicked := by rw [← ho]; rfl
-  have hk5' : checkK5 o = [] := by rw [← ho]; exact hk5
-  -- the log with the events of this op in canonical order
-  have hpermL : (s.mem.log ++ es).Perm (s.mem.log ++ canonEvs evs') :=
-    List.Perm.append_left _ ((canonEvs_perm evs').trans hperm).symm
-  have hfacts : LogFacts o (s.mem.log ++ canonEvs evs') := by
-    have := facts_of_state hi' hl' hdl' hnd' o hslots
-    rw [hes] at this
-    exact this.perm hpermL
-  have hLok := logOk_of_facts hfacts (ordered_canon (ordered_of_loginv hl) hfacts)
-  obtain ⟨hk2, htrack0⟩ := k2_sound hLok (canonEvs evs') s.mem.log st rfl hr.track
-  have htrack : Track (step s op).1.mem.log (k2 o st (canonEvs evs')).1 := by
-    apply htrack0.congr
-    intro x; rw [hes]; exact hpermL.mem_iff.symm
-  -- every abandoned block is a documented leak
-  have hleak : ∀ (b : Nat) (k : Block), (step s op).1.mem.blocks[b]? = some k → k.leaked = true →
-      b ∈ (k2 o st (canonEvs evs')).1.leakOk := by
-    intro b k hk hlk
-    rcases hg.leak b k hk hlk with ⟨k0, hk0, hlk0⟩ | ⟨hge, hpan'⟩
-    · exact k2_leakOk_mono _ _ _ _ (hr.leak b k0 hk0 hlk0)
-    · have hb : b < (step s op).1.mem.blocks.length := (List.getElem?_eq_some_iff.1 hk).1
-      obtain ⟨j, _, sz, al, hj⟩ := hl'.alloc_exists hb
-      have hm := List.mem_of_getElem? hj
-      rw [hes] at hm
-      rcases List.mem_append.1 hm with hm | hm
-      · obtain ⟨k1, hk1, _⟩ := hl.lay b sz al hm
-        have := (List.getElem?_eq_some_iff.1 hk1).1
-        omega
-      · have hm' : Event.alloc b sz al ∈ canonEvs evs' := ((canonEvs_perm evs').trans hperm).mem_iff.2 hm
-        exact k2_leakOk_new o (by rw [hpan]; exact hpan') _ _ b sz al hm'
-  have hk3 : (k2 o st (canonEvs evs')).1.live.filter (k3Bad o (k2 o st (canonEvs evs')).1) = [] := by
-    rw [List.filter_eq_nil_iff]
-    intro e he
-    obtain ⟨b, sz, al⟩ := e
-    obtain ⟨ha, hnd⟩ := (htrack.live b sz al).1 he
-    obtain ⟨k, hk, _⟩ := hl'.lay b sz al ha
-    have hlive : k.live = true := by
-      cases hlv : k.live with
-      | true => rfl
-      | false =>
-        obtain ⟨sz', al', hd⟩ := (dealloc_iff_dead hl' hk).2 hlv
-        exact absurd hd (hnd sz' al')
-    simp only [k3Bad, hslots, ownersO_observe, Bool.and_eq_true, beq_iff_eq, Bool.not_eq_eq_eq_not, Bool.not_true,
-      not_and, Bool.not_eq_false]
-    intro hown
-    cases hlk : k.leaked with
-    | true => simpa using hleak b k hk hlk
-    | false =>
-      have := hi'.cnt b k hk hlive hlk
-      omega
-  have hk1 := K1_state hi' o hslots
-  refine ⟨?_, ?_, ?_, ?_⟩
-  · simp only [checkObsOnly, hoevs, checkK3, hk1, hk2, hk3, hk5', List.map_nil, List.append_nil]
-  · exact hslots
-  · simp only [checkObsOnly, hoevs]
-    exact ⟨htrack.live, htrack.dropped⟩
-  · intro b k hk hlk
-    simp only [checkObsOnly, hoevs]
-    exact List.mem_append_right _ (hleak b k hk hlk)
-
-/-! ## K4: the gates -/
-
-theorem observe_eq {s s' : State} {op : Op} {out : Out} (e : step s op = (s', out)) :
-    observe s op = ⟨isPanicStatus out.status, isBadOpStatus out.status, verdictOf op out,
-      s'.mem.log.drop s.mem.log.length, observeSlots s'⟩ := by
-  simp [observe, e]
-
-theorem k4_badOp {pre : List (Nat × SlotObs)} {op : Op} {o : Obs} (hb : o.badOp = true) : checkK4 pre op o = [] := by
-  unfold checkK4
-  split
-  · rfl
-  · simp [hb]
-
-theorem k4_of {pre : List (Nat × SlotObs)} {op : Op} {o : Obs} {src : Nat} {p : SlotObs} {v : Bool}
-    (hsrc : gateSrc op = some src) (hp : lookupO pre src = some p) (hv : o.verdict = some v)
-    (h1 : v = (ownersO pre p.blk == 1))
-    (h2 : v = false → lookupO o.slots src = some p ∧ o.evs = []) : checkK4 pre op o = [] := by
-  unfold checkK4
-  rw [hsrc]
-  simp only [hp, hv]
-  split
-  · rfl
-  · rw [List.append_eq_nil_iff]
-    refine ⟨by simp [← h1], ?_⟩
-    cases v with
-    | true => simp
-    | false =>
-      obtain ⟨h3, h4⟩ := h2 rfl
-      simp [h3, h4]
-
-/-- the gate's verdict is "sole owner among the probed slots" -/
-theorem sole_owner {s : State} (hi : Inv s) {src : Nat} {h : HV} (hl : lookup s src = some h) :
-    Arc.is_unique s.mem h = (ownersO (observeSlots s) (slotObs s.mem h).blk == 1) := by
-  rw [ownersO_observe]
-  show (loadCount s.mem h.blk == 1) = (owners s h.blk == 1)
-  rw [(count_eq_owners hi hl).1]
-
-theorem K4_sound {s : State} (hi : Inv s) (op : Op) : checkK4 (observeSlots s) op (observe s op) = [] := by
-  have hbad : ∀ {op : Op}, step s op = (s, badOp) → checkK4 (observeSlots s) op (observe s op) = [] := by
-    intro op e
-    apply k4_badOp
-    rw [observe_eq e]; exact isBadOp_badOp
-  have hdrop : s.mem.log.drop s.mem.log.length = [] := by simp
-  cases op with
-  | isUnique src =>
-    cases hl : lookup s src with
-    | none => exact hbad (by simp [step, hl])
-    | some h =>
-      by_cases hk : h.kind = .arc
-      · have e : step s (.isUnique src) = (s, ok s!"unique={Arc.is_unique s.mem h}") := by simp [step, hl, hk]
-        have hp : lookupO (observeSlots s) src = some (slotObs s.mem h) := by rw [lookupO_observe, hl]; rfl
-        refine k4_of rfl hp (by rw [observe_eq e]; exact verdict_isUnique src _) (sole_owner hi hl) ?_
-        intro _
-        rw [observe_eq e]
-        exact ⟨hp, hdrop⟩
-      · exact hbad (by simp [step, hl, hk])
-  | getMut src v =>
-    cases hl : lookup s src with
-    | none => exact hbad (by simp [step, hl])
-    | some h =>
-      have hp : lookupO (observeSlots s) src = some (slotObs s.mem h) := by rw [lookupO_observe, hl]; rfl
-      by_cases hk : h.kind = .arc ∧ h.ty.elemsInit = true
-      · cases hu : Arc.is_unique s.mem h with
-        | true =>
-          have e : step s (.getMut src v) = (⟨writeVal s.mem h.blk v, s.slots⟩, ok "some") := by
-            simp [step, hl, hk, hu]
-          refine k4_of rfl hp (by rw [observe_eq e]; exact (verdict_getMut src v).1)
-            (by rw [← sole_owner hi hl, hu]) (fun h => by cases h)
-        | false =>
-          have e : step s (.getMut src v) = (s, ok "none") := by simp [step, hl, hk, hu]
-          refine k4_of rfl hp (by rw [observe_eq e]; exact (verdict_getMut src v).2)
-            (by rw [← sole_owner hi hl, hu]) ?_
-          intro _
-          rw [observe_eq e]
-          exact ⟨hp, hdrop⟩
-      · exact hbad (by simp [step, hl, hk])
-  | getUnique src v =>
-    cases hl : lookup s src with
-    | none => exact hbad (by simp [step, hl])
-    | some h =>
-      have hp : lookupO (observeSlots s) src = some (slotObs s.mem h) := by rw [lookupO_observe, hl]; rfl
-      by_cases hk : h.kind = .arc ∧ h.ty.elemsInit = true
-      · cases hu : Arc.is_unique s.mem h with
-        | true =>
-          have e : step s (.getUnique src v) = (⟨writeVal s.mem h.blk v, s.slots⟩, ok "some") := by
-            simp [step, hl, hk, Arc.try_unique, hu]
-          refine k4_of rfl hp (by rw [observe_eq e]; exact (verdict_getUnique src v).1)
-            (by rw [← sole_owner hi hl, hu]) (fun h => by cases h)
-        | false =>
-          have e : step s (.getUnique src v) = (s, ok "none") := by simp [step, hl, hk, Arc.try_unique, hu]
-          refine k4_of rfl hp (by rw [observe_eq e]; exact (verdict_getUnique src v).2)
-            (by rw [← sole_owner hi hl, hu]) ?_
-          intro _
-          rw [observe_eq e]
-          exact ⟨hp, hdrop⟩
-      · exact hbad (by simp [step, hl, hk])
-  | tryUnique src =>
-    cases hl : lookup s src with
-    | none => exact hbad (by simp [step, hl])
-    | some h =>
-      have hp : lookupO (observeSlots s) src = some (slotObs s.mem h) := by rw [lookupO_observe, hl]; rfl
-      by_cases hk : h.kind = .arc ∧ (h.ty = .sized ∨ h.ty = .slice ∨ h.ty = .hs ∨ h.ty = .hwl ∨ h.ty = .mu ∨ h.ty = .muSlice)
-      · cases hu : Arc.is_unique s.mem h with
-        | true =>
-          have e : step s (.tryUnique src) = (s.set s.mem src { h with kind := .uniq }, ok "ok") := by
-            simp [step, hl, hk, Arc.try_unique, hu]
-          refine k4_of rfl hp (by rw [observe_eq e]; exact (verdict_tryUnique src).1)
-            (by rw [← sole_owner hi hl, hu]) (fun h => by cases h)
-        | false =>
-          have e : step s (.tryUnique src) = (s, ok "err") := by simp [step, hl, hk, Arc.try_unique, hu]
-          refine k4_of rfl hp (by rw [observe_eq e]; exact (verdict_tryUnique src).2)
-            (by rw [← sole_owner hi hl, hu]) ?_
-          intro _
-          rw [observe_eq e]
-          exact ⟨hp, hdrop⟩
-      · exact hbad (by simp [step, hl, hk])
-  | tryUnwrap src =>
-    cases hl : lookup s src with
-    | none => exact hbad (by simp [step, hl])
-    | some h =>
-      have hp : lookupO (observeSlots s) src = some (slotObs s.mem h) := by rw [lookupO_observe, hl]; rfl
-      by_cases hk : h.kind = .arc ∧ h.ty = .sized
-      · cases hu : Arc.is_unique s.mem h with
-        | true =>
-          have e : ∃ (m : Mem) (x : String), step s (.tryUnwrap src) = (s.del m src, ok s!"ok={x}") := by
-            simp only [step, hl, hk, and_self, if_true, Arc.try_unwrap, Arc.try_unique, hu]
-            exact ⟨_, _, rfl⟩
-          obtain ⟨m, x, e⟩ := e
-          refine k4_of rfl hp (by rw [observe_eq e]; exact verdict_tryUnwrap_ok src x)
-            (by rw [← sole_owner hi hl, hu]) (fun h => by cases h)
-        | false =>
-          have e : step s (.tryUnwrap src) = (s, ok "err") := by
-            simp [step, hl, hk, Arc.try_unwrap, Arc.try_unique, hu]
-          refine k4_of rfl hp (by rw [observe_eq e]; exact verdict_tryUnwrap_err src)
-            (by rw [← sole_owner hi hl, hu]) ?_
-          intro _
-          rw [observe_eq e]
-          exact ⟨hp, hdrop⟩
-      · exact hbad (by simp [step, hl, hk])
-  | _ => rfl
-
-/-! ## K6: no op ever rewrites a union handle (a new fact about `step`) -/
-
-/-- every union handle of `sl0` is still there in `sl`, exactly the same handle value -/
-def KeepL (sl0 sl : Slots) : Prop :=
-  ∀ (i : Nat) (h : HV), lookupL sl0 i = some h → unionKind h.kind = true → lookupL sl i = some h
-
-/-- slot `i` does not hold a union handle -/
-def NotUnionAt (sl : Slots) (i : Nat) : Prop := ∀ hs, lookupL sl i = some hs → unionKind hs.kind = false
-
-theorem lookupL_delL (sl : Slots) (i j : Nat) : lookupL (delL sl i) j = if j = i then none else lookupL sl j := by
-  induction sl with
-  | nil => simp [delL, lookupL]
-  | cons e r ih =>
-    obtain ⟨a, x⟩ := e
-    by_cases hai : a = i
-    · subst hai
-      have : delL ((a, x) :: r) a = delL r a := by simp [delL]
-      rw [this, ih]
-      by_cases hj : j = a
-      · simp [hj]
-      · simp only [hj, if_false]
-        rw [lookupL_cons_ne (fun e => hj e.symm)]
-    · have : delL ((a, x) :: r) i = (a, x) :: delL r i := by simp [delL, hai]
-      rw [this]
-      by_cases haj : a = j
-      · subst haj
-        rw [lookupL_cons_self, lookupL_cons_self]
-        simp [hai]
-      · rw [lookupL_cons_ne haj, lookupL_cons_ne haj, ih]
-
-theorem lookupL_setL_self (sl : Slots) (i : Nat) (h' : HV) :
-    lookupL (setL sl i h') i = (lookupL sl i).map fun _ => h' := by
-  induction sl with
-  | nil => rfl
-  | cons e r ih =>
-    obtain ⟨a, x⟩ := e
-    have hcons : setL ((a, x) :: r) i h' = (if a = i then (i, h') else (a, x)) :: setL r i h' := by
-      simp [setL]
-    rw [hcons]
-    by_cases he : a = i
-    · subst he
-      simp only [if_true]
-      rw [lookupL_cons_self, lookupL_cons_self]; rfl
-    · simp only [he, if_false]
-      rw [lookupL_cons_ne he, lookupL_cons_ne he, ih]
-
-namespace KeepL
-
-theorem refl (sl : Slots) : KeepL sl sl := fun _ _ h _ => h
-
-theorem ne_of {sl0 sl : Slots} (hk : KeepL sl0 sl) {src : Nat} (hn : NotUnionAt sl src) {i : Nat} {h : HV}
-    (hl : lookupL sl0 i = some h) (hu : unionKind h.kind = true) : i ≠ src := by
-  intro e; subst e
-  have := hn h (hk i h hl hu)
-  rw [hu] at this; cases this
-
-theorem put {sl0 sl : Slots} (hk : KeepL sl0 sl) {dst : Nat} (hd : lookupL sl dst = none) (c : HV) :
-    KeepL sl0 ((dst, c) :: sl) := by
-  intro i h hl hu
-  have hne : dst ≠ i := by
-    intro e; subst e
-    rw [hk _ h hl hu] at hd; cases hd
-  rw [lookupL_cons_ne hne]
-  exact hk i h hl hu
-
-theorem del {sl0 sl : Slots} (hk : KeepL sl0 sl) {src : Nat} (hn : NotUnionAt sl src) : KeepL sl0 (delL sl src) := by
-  intro i h hl hu
-  rw [lookupL_delL, if_neg (hk.ne_of hn hl hu)]
-  exact hk i h hl hu
-
-theorem set {sl0 sl : Slots} (hk : KeepL sl0 sl) {src : Nat} (hn : NotUnionAt sl src) (h' : HV) :
-    KeepL sl0 (setL sl src h') := by
-  intro i h hl hu
-  rw [lookupL_setL_ne _ _ (hk.ne_of hn hl hu)]
-  exact hk i h hl hu
-
-end KeepL
-
-theorem notUnionAt_of {s : State} {src : Nat} {h : HV} (hl : lookup s src = some h) (hk : unionKind h.kind = false) :
-    NotUnionAt s.slots src := by
-  intro hs h2
-  have : lookup s src = some hs := h2
-  rw [hl] at this; cases this; exact hk
-
-/-- `runCb_ind` with the API known in the `replaceWith` case as well -/
-theorem runCb_ind' (api : CbApi) (src : Nat) (P : State → HV → Prop)
-    (hcloneTo : ∀ (s : State) (t : HV) (k : Nat) (m : Mem) (c : HV), P s t → lookup s k = none →
-      cloneHandle s.mem t = some (m, c) →
-      P (s.put m k (if api = .thinWithArcMut then ThinArc.of_arc c else c)) t)
-    (hcloneArc : ∀ (s : State) (t : HV) (k : Nat), P s t → lookup s k = none → api = .rawOffset →
-      P (s.put (incr s.mem t.blk) k { OffsetArc.transient s.mem t with kind := .arc }) t)
-    (hwrite : ∀ (s : State) (t : HV) (v : Nat), P s t → P ⟨writeVal s.mem t.blk v, s.slots⟩ t)
-    (hrepl : ∀ (s : State) (t : HV) (k : Nat) (h2 : HV), P s t → k ≠ src → lookup s k = some h2 →
-      h2.kind = .thin → api = .thinWithArcMut →
-      P ((s.del (Arc.drop s.mem t) k).set (Arc.drop s.mem t) src (ThinArc.of_arc (ThinArc.thick s.mem h2)))
-        (ThinArc.thick s.mem h2))
-    (hswap : ∀ (s : State) (t : HV) (k : Nat) (h2 : HV), P s t → k ≠ src → lookup s k = some h2 →
-      h2.kind = .thin → api = .thinWithArcMut →
-      P ((s.set s.mem k (ThinArc.of_arc t)).set s.mem src (ThinArc.of_arc (ThinArc.thick s.mem h2)))
-        (ThinArc.thick s.mem h2))
-    (script : List CbAct) :
-    ∀ (s : State) (t : HV) (acc : String), P s t → ∃ t', P (runCb api src script s t acc).1 t' := by
-  induction script with
-  | nil => intro s t acc hp; exact ⟨t, hp⟩
-  | cons a rest ih =>
-    intro s t acc hp
-    cases a <;> simp only [runCb]
-    case cnt => exact ih _ _ _ hp
-    case read => exact ih _ _ _ hp
-    case panic => exact ⟨t, hp⟩
-    case cloneTo k =>
-      split
-      · exact ih _ _ _ hp
-      · rename_i hk
-        split
-        · exact ih _ _ _ hp
-        · rename_i m c hc
-          exact ih _ _ _ (hcloneTo s t k m c hp hk hc)
-    case cloneArcTo k =>
-      split
-      · exact ih _ _ _ hp
-      · rename_i hk
-        split
-        · rename_i ha
-          rw [clone_arc_offset]
-          exact ih _ _ _ (hcloneArc s t k hp hk ha)
-        · exact ih _ _ _ hp
-    case getMutWrite v =>
-      split
-      · split
-        · exact ih _ _ _ (hwrite s t v hp)
-        · exact ih _ _ _ hp
-      · exact ih _ _ _ hp
-    case replaceWith k =>
-      split
-      · rename_i hc
-        split
-        · rename_i h2 hlk
-          split
-          · rename_i hthin
-            exact ih _ _ _ (hrepl s t k h2 hp hc.2 hlk hthin hc.1)
-          · exact ih _ _ _ hp
-        · exact ih _ _ _ hp
-      · exact ih _ _ _ hp
-    case swapWith k =>
-      split
-      · rename_i hc
-        split
-        · rename_i h2 hlk
-          split
-          · rename_i hthin
-            exact ih _ _ _ (hswap s t k h2 hp hc.2 hlk hthin hc.1)
-          · exact ih _ _ _ hp
-        · exact ih _ _ _ hp
-      · exact ih _ _ _ hp
-
-/-- what a callback script maintains about the slot table -/
-def CbKeep (sl0 : Slots) (api : CbApi) (src : Nat) (s : State) (_t : HV) : Prop :=
-  KeepL sl0 s.slots ∧ (api = .thinWithArcMut → ∀ hs, lookup s src = some hs → hs.kind = .thin)
-
-theorem thin_notUnion {sl : Slots} {i : Nat} (h : ∀ hs, lookupL sl i = some hs → hs.kind = .thin) : NotUnionAt sl i := by
-  intro hs hl; rw [h hs hl]; rfl
-
-theorem runCb_keep (sl0 : Slots) (api : CbApi) (src : Nat) (script : List CbAct) (s : State) (t : HV) (acc : String)
-    (hp : CbKeep sl0 api src s t) : KeepL sl0 (runCb api src script s t acc).1.slots := by
-  suffices h : ∃ t', CbKeep sl0 api src (runCb api src script s t acc).1 t' by
-    obtain ⟨t', h, _⟩ := h; exact h
-  refine runCb_ind' api src (CbKeep sl0 api src) ?_ ?_ ?_ ?_ ?_ script s t acc hp
-  · intro s t k m c hp hk _
-    refine ⟨hp.1.put hk _, ?_⟩
-    intro ha hs hl
-    by_cases hks : k = src
-    · subst hks
-      have : lookup (s.put m k (if api = .thinWithArcMut then ThinArc.of_arc c else c)) k =
-          some (if api = .thinWithArcMut then ThinArc.of_arc c else c) := lookupL_cons_self
-      rw [this] at hl
-      cases hl
-      rw [if_pos ha]; rfl
-    · rw [lookup_put_ne hks] at hl
-      exact hp.2 ha hs hl
-  · intro s t k hp hk ha
-    refine ⟨hp.1.put hk _, ?_⟩
-    intro ha'; rw [ha] at ha'; cases ha'
-  · intro s t v hp
-    exact hp
-  · intro s t k h2 hp hne hlk hthin ha
-    have hnk : NotUnionAt s.slots k := notUnionAt_of hlk (by rw [hthin]; rfl)
-    have hsrc : ∀ hs, lookupL (delL s.slots k) src = some hs → hs.kind = .thin := by
-      intro hs hl
-      rw [lookupL_delL, if_neg (fun e => hne e.symm)] at hl
-      exact hp.2 ha hs hl
-    refine ⟨(hp.1.del hnk).set (thin_notUnion hsrc) _, ?_⟩
-    intro _ hs hl
-    have : lookupL (setL (delL s.slots k) src (ThinArc.of_arc (ThinArc.thick s.mem h2))) src = some hs := hl
-    rw [lookupL_setL_self] at this
-    cases hx : lookupL (delL s.slots k) src with
-    | none => rw [hx] at this; cases this
-    | some x => rw [hx] at this; cases this; rfl
-  · intro s t k h2 hp hne hlk hthin ha
-    have hnk : NotUnionAt s.slots k := notUnionAt_of hlk (by rw [hthin]; rfl)
-    have hsrc : ∀ hs, lookupL (setL s.slots k (ThinArc.of_arc t)) src = some hs → hs.kind = .thin := by
-      intro hs hl
-      rw [lookupL_setL_ne _ _ (fun e => hne e.symm)] at hl
-      exact hp.2 ha hs hl
-    refine ⟨(hp.1.set hnk _).set (thin_notUnion hsrc) _, ?_⟩
-    intro _ hs hl
-    have : lookupL (setL (setL s.slots k (ThinArc.of_arc t)) src (ThinArc.of_arc (ThinArc.thick s.mem h2))) src
-        = some hs := hl
-    rw [lookupL_setL_self] at this
-    cases hx : lookupL (setL s.slots k (ThinArc.of_arc t)) src with
-    | none => rw [hx] at this; cases this
-    | some x => rw [hx] at this; cases this; rfl
-
-
-theorem runConv_notUnion {m : Mem} {h h' : HV} {c : Conv} (hc : runConv m h c = some h') :
-    unionKind h.kind = false := by
-  cases hk : h.kind <;> first
-    | rfl
-    | (exfalso; cases c <;> simp [runConv, hk] at hc)
-
-theorem keep_mem {sl0 : Slots} {s : State} (h : KeepL sl0 s.slots) (m : Mem) : KeepL sl0 (State.mk m s.slots).slots := h
-
-/-- **no op other than `drop` / `dropAll` removes or rewrites a union handle** -/
-theorem step_keep (s : State) (op : Op) (hop : k6Applies op = true) : KeepL s.slots (step s op).1.slots := by
-  have R := KeepL.refl s.slots
-  have arcNU : ∀ {src : Nat} {h : HV}, lookup s src = some h → h.kind = .arc → NotUnionAt s.slots src :=
-    fun hl hk => notUnionAt_of hl (by rw [hk]; rfl)
-  cases op with
-  | drop src => cases hop
-  | dropAll => cases hop
-  | create dst c =>
-    simp only [step]
-    split
-    · exact R
-    · rename_i hd
-      split
-      · exact R
-      · exact R.put hd _
-  | iterCtor dst w h sc =>
-    simp only [step]
-    split
-    · exact R
-    · rename_i hd
-      split
-      · exact R.put hd _
-      · exact R
-  | clone dst src =>
-    simp only [step]
-    split
-    · rename_i hd hs
-      split
-      · exact R.put hd _
-      · exact R
-    · exact R
-  | conv src c =>
-    simp only [step]
-    split
-    · rename_i h hl
-      split
-      · rename_i h' hc
-        exact R.set (notUnionAt_of hl (runConv_notUnion hc)) _
-      · exact R
-    · exact R
-  | intoThin src =>
-    simp only [step]
-    split
-    · rename_i h hl
-      split
-      · rename_i hk
-        split
-        · exact R.set (arcNU hl hk.1) _
-        · exact R.del (arcNU hl hk.1)
-      · exact R
-    · exact R
-  | cloneArc dst src =>
-    simp only [step]
-    split
-    · rename_i hd hs
-      split
-      · exact R.put hd _
-      · exact R
-    · exact R
-  | isUnique src =>
-    simp only [step]
-    split
-    · split <;> exact R
-    · exact R
-  | getMut src v =>
-    simp only [step]
-    split
-    · split
-      · split <;> exact R
-      · exact R
-    · exact R
-  | getUnique src v =>
-    simp only [step]
-    split
-    · split
-      · split <;> exact R
-      · exact R
-    · exact R
-  | makeMut src v cp =>
-    simp only [step]
-    split
-    · rename_i h hl
-      split
-      · rename_i hk
-        split
-        · exact R.set (arcNU hl hk.1) _
-        · exact R
-      · split
-        · rename_i hk
-          split
-          · exact R.set (notUnionAt_of hl (by rw [hk]; rfl)) _
-          · exact R
-        · exact R
-    · exact R
-  | makeUnique src v cp =>
-    simp only [step]
-    split
-    · rename_i h hl
-      split
-      · rename_i hk
-        split
-        · exact R.set (arcNU hl hk.1) _
-        · exact R
-      · exact R
-    · exact R
-  | tryUnwrap src =>
-    simp only [step]
-    split
-    · rename_i h hl
-      split
-      · rename_i hk
-        split
-        · exact R.del (arcNU hl hk.1)
-        · exact R
-      · exact R
-    · exact R
-  | unwrapOrClone src cp =>
-    simp only [step]
-    split
-    · rename_i h hl
-      split
-      · rename_i hk
-        split
-        · exact R.del (arcNU hl hk.1)
-        · split
-          · exact R.del (arcNU hl hk.1)
-          · exact R.del (arcNU hl hk.1)
-      · exact R
-    · exact R
-  | intoInner src =>
-    simp only [step]
-    split
-    · rename_i h hl
-      split
-      · rename_i hk
-        exact R.del (notUnionAt_of hl (by rw [hk.1]; rfl))
-      · exact R
-    · exact R
-  | tryUnique src =>
-    simp only [step]
-    split
-    · rename_i h hl
-      split
-      · rename_i hk
-        split
-        · exact R.set (arcNU hl hk.1) _
-        · exact R
-      · exact R
-    · exact R
-  | uniqWrite src v =>
-    simp only [step]
-    split
-    · split <;> exact R
-    · exact R
-  | writeSlot src i v =>
-    simp only [step]
-    split
-    · split
-      · split <;> exact R
-      · exact R
-    · exact R
-  | withCb src api script =>
-    simp only [step]
-    split
-    · rename_i h hl
-      split
-      · rename_i t ht
-        apply runCb_keep
-        refine ⟨R, ?_⟩
-        intro ha hs hl'
-        rw [hl] at hl'; cases hl'
-        subst ha
-        simp only [transientOf] at ht
-        split at ht
-        · assumption
-        · cases ht
-      · exact R
-    · exact R
-
-theorem K6_sound {s : State} (hi : Inv s) (op : Op) : checkK6 (observeSlots s) op (observe s op) = [] := by
-  unfold checkK6
-  split
-  · rename_i hop
-    rw [List.filterMap_eq_nil_iff]
-    intro e he
-    obtain ⟨h, hm, he2⟩ := mem_observe he
-    have hl : lookupL s.slots e.1 = some h := mem_lookupL hi.keys hm
-    unfold k6One
-    rw [he2]
-    by_cases hu : unionKind h.kind = true
-    · have hk := step_keep s op hop e.1 h hl hu
-      have : lookupO (observe s op).slots e.1 = some (slotObs (step s op).1.mem h) := by
-        show lookupO (observeSlots (step s op).1) e.1 = _
-        rw [lookupO_observe]
-        show (lookupL (step s op).1.slots e.1).map _ = _
-        rw [hk]; rfl
-      simp [this, slotObs, hu]
-    · simp [slotObs, hu]
-  · rfl
 
 /-! ## one op -/
 
@@ -1401,9 +46,18 @@ theorem checkOp_sound_perm (pre : List Op) (op : Op) (hf : FreshIds (pre ++ [op]
   refine ⟨?_, h2⟩
   have h4 := K4_sound hi op
   have h6 : checkK6 (observeSlots (run pre)) op ((observe (run pre) op).withEvs evs') = [] := K6_sound hi op
+  have hlen := leninv_run pre
+  have h7 := K7_sound hi hlen op
+  have h8 := K8_sound hi op
+  have h9 := K9_sound hi hlen op
+  have h10 := K10_sound hi hlen op
   rw [← checkK4_withEvs _ _ _ evs' (perm_isEmpty hperm)] at h4
-  rw [← hr.pre] at h4 h6
-  simp only [checkOp, h1, h4, h6, List.append_nil]
+  rw [← checkK7_withEvs _ _ _ evs' hperm] at h7
+  rw [← checkK8_withEvs _ _ _ evs' hperm] at h8
+  rw [← checkK9_withEvs _ _ _ evs' hperm] at h9
+  rw [← checkK10_withEvs _ _ _ evs' hperm] at h10
+  rw [← hr.pre] at h4 h6 h7 h8 h9 h10
+  simp only [checkOp, h1, h4, h6, h7, h8, h9, h10, List.append_nil]
 
 theorem checkOp_sound (pre : List Op) (op : Op) (hf : FreshIds (pre ++ [op])) (st : MSt) (hr : Rel st (run pre)) :
     (checkOp st op (observe (run pre) op)).2 = [] ∧
